@@ -499,3 +499,365 @@ Example nonvacuous_current :
   = Found 2 [ex_str "*"] [ex_str "foo/bar/baz"] /\
   find_in false (load ex_any NV_adds) (ex_str "/foo/bar") (ex_only [1; 2; 3; 4]) = Found 4 [] [].
 Proof. vm_compute. repeat split. Qed.
+
+(** * The backtracking flag as the property states it (finding C02-F2) *)
+
+Section FlagTheorems.
+Variable V : Type.
+Variable vflag : V -> bool.
+Variable can_add : list V -> V -> bool.
+Notation matcher := (matcher V).
+
+(** outside C02-F2 the compressed tree returns what the specification says on the loaded
+    content with every expression's flag = conjunction of its rules' flags *)
+Theorem tree_find_is_spec_F2 (m : matcher) (l : list (addop V)) path :
+  guard_F2 vflag (load can_add l) path m = false ->
+  tree_find true true true m (tree_load V can_add l) path = spec_lookup (respec vflag (load can_add l)) path m.
+Proof.
+  intro Hg. rewrite (tree_loaded_find_is_spec V can_add m l path). apply spec_lookup_respec. exact Hg.
+Qed.
+
+Theorem find_is_spec_F2 (m : matcher) (l : list (addop V)) path :
+  guard_F2 vflag (load can_add l) path m = false ->
+  find_in false (load can_add l) path m = spec_lookup (respec vflag (load can_add l)) path m.
+Proof.
+  intro Hg. rewrite (loaded_repaired_find_is_spec V can_add l path m). apply spec_lookup_respec. exact Hg.
+Qed.
+
+End FlagTheorems.
+
+(** repository level, against [spec_lookup] directly *)
+Theorem tree_find_rule_is_spec_F2 (vflag : rval -> bool) (sets : list (nat * list rule_def)) dflt path (m : matcher rval) :
+  guard_F2 vflag (load_rulesets [] sets) path m = false ->
+  match spec_lookup (respec vflag (load_rulesets [] sets)) path m with
+  | Found v _ _ => tree_find_rule (tree_load_rulesets empty_tree sets) dflt path m = ORule (fst v)
+  | NoMatch => tree_find_rule (tree_load_rulesets empty_tree sets) dflt path m = if dflt then ODefault else ONoRule
+  end.
+Proof.
+  intro Hg. rewrite (tree_find_rule_is_spec sets dflt path m). unfold spec_find_rule.
+  rewrite (spec_lookup_respec rval vflag m _ path Hg).
+  destruct (spec_lookup (respec vflag (load_rulesets [] sets)) path m); reflexivity.
+Qed.
+
+(** the witness of C02-F2: rule 1 forbids backtracking, rule 2 (added last, same expression)
+    allows it, both fail: the lookup falls back to  /:y/:z  *)
+Definition F2_vflag (v : nat) : bool := negb (Nat.eqb v 1).
+Definition F2_adds : list (addop nat) :=
+  [ex_add "/a/:x" 1 false; ex_add "/a/:x" 2 true; ex_add "/:y/:z" 3 true].
+
+Lemma F2_adds_flags : flags_from_values F2_vflag F2_adds.
+Proof. intros a [<-|[<-|[<-|[]]]]; reflexivity. Qed.
+
+Theorem F2_refuted :
+  exists (l : list (addop nat)) path (m : matcher nat),
+    flags_from_values F2_vflag l /\ guard_F2 F2_vflag (load ex_any l) path m = true /\
+    tree_find true true true m (tree_load nat ex_any l) path <> spec_lookup (respec F2_vflag (load ex_any l)) path m.
+Proof.
+  exists F2_adds, (ex_str "/a/b"), (ex_only [3]). split; [exact F2_adds_flags|].
+  split; [vm_compute; reflexivity | vm_compute; discriminate].
+Qed.
+
+(** * the tie-breaks of the specificity order never decide *)
+
+(** the order without its tie-breaks: [None] where it would have to compare two different
+    literal bytes or a pattern with a proper extension of it *)
+Fixpoint kind_cmp (p q : pat) : option comparison :=
+  match p, q with
+  | [], [] => Some Eq
+  | [], _ :: _ | _ :: _, [] => None
+  | a :: p', b :: q' =>
+    match a, b with
+    | L x, L y => if Ascii.eqb x y then kind_cmp p' q' else None
+    | L _, _ => Some Lt
+    | W, L _ => Some Gt
+    | W, W => kind_cmp p' q'
+    | W, C => Some Lt
+    | C, C => kind_cmp p' q'
+    | C, _ => Some Gt
+    end
+  end.
+
+Lemma matchesb_cons_nil t p : matchesb (t :: p) [] = false.
+Proof. destruct t as [c| |]; [reflexivity | reflexivity | destruct p; reflexivity]. Qed.
+
+(** two expressions matching one path are ordered by "literal < single wildcard < free
+    wildcard" at the first position where they differ — never by byte order or length *)
+Theorem ties_never_decide p : forall q s,
+  matchesb p s = true -> matchesb q s = true -> kind_cmp p q = Some (pat_cmp p q).
+Proof.
+  induction p as [|a p IH]; intros q s Hp Hq.
+  - destruct q as [|b q]; [reflexivity|]. destruct s as [|c s]; [rewrite matchesb_cons_nil in Hq|]; discriminate.
+  - destruct q as [|b q].
+    { destruct s as [|c s]; [rewrite matchesb_cons_nil in Hp|]; discriminate. }
+    destruct s as [|c s]; [rewrite matchesb_cons_nil in Hp; discriminate|].
+    destruct a as [x| |], b as [y| |]; cbn [kind_cmp pat_cmp tok_cmp]; try reflexivity.
+    + rewrite matchesb_L in Hp, Hq.
+      destruct (Ascii.eqb x c) eqn:Ex; [|discriminate]. destruct (Ascii.eqb y c) eqn:Ey; [|discriminate].
+      apply Ascii.eqb_eq in Ex. apply Ascii.eqb_eq in Ey. subst x y. rewrite Ascii.eqb_refl, N.compare_refl.
+      apply (IH q s Hp Hq).
+    + destruct (take_seg (c :: s)) as [seg rest] eqn:Hts.
+      rewrite (matchesb_W p _ _ _ Hts) in Hp. rewrite (matchesb_W q _ _ _ Hts) in Hq.
+      destruct seg; [discriminate|]. apply (IH q rest Hp Hq).
+    + rewrite matchesb_C in Hp, Hq. destruct p; [|discriminate]. destruct q; [|discriminate]. reflexivity.
+Qed.
+
+
+(** the hypotheses of the main theorem are satisfiable on a non-trivial input: three / two
+    candidates, with and without backtracking, guard off *)
+Definition NV_vflag (v : nat) : bool := negb (Nat.eqb v 3).
+
+Example nonvacuous_tree :
+  flags_from_values NV_vflag NV_adds /\
+  guard_F2 NV_vflag (load ex_any NV_adds) (ex_str "/foo/bar") (ex_only [2]) = false /\
+  tree_find true true true (ex_only [2]) (tree_load nat ex_any NV_adds) (ex_str "/foo/bar") = NoMatch /\
+  guard_F2 NV_vflag (load ex_any NV_adds) (ex_str "/foo/bar/baz") (ex_only [2]) = false /\
+  tree_find true true true (ex_only [2]) (tree_load nat ex_any NV_adds) (ex_str "/foo/bar/baz")
+  = Found 2 [ex_str "*"] [ex_str "foo/bar/baz"].
+Proof.
+  split; [intros a [<-|[<-|[<-|[<-|[]]]]]; reflexivity|]. vm_compute. repeat split.
+Qed.
+
+(** * finding C02-F3 (= C06-F1 seen from C02): after an update the rules of one expression are
+    no longer tried in rule-set order.  Rule set 1 = [A; B], both on  /x ; an update changes only
+    A's definition: A is deleted and re-appended behind B *)
+Definition F3_rule (id : nat) : rule_def := {| r_id := id; r_bt := true; r_routes := [ex_str "/x"] |}.
+Definition F3_ops : list hop :=
+  [HCreate 1 [F3_rule 1; F3_rule 2] true;
+   HUpdate 1 [{| h_rule := F3_rule 1; h_same := true; h_equal := false |};
+              {| h_rule := F3_rule 2; h_same := true; h_equal := true |}] true].
+Definition F3_any : matcher rval := fun _ _ _ => true.
+
+Theorem F3_refuted :
+  exists (ops : list hop) path (m : matcher rval),
+    guard_F3 (hist_db ops) (fresh_db ops) path = true /\
+    find_rule false (hist_db ops) false path m <> spec_find_rule (fresh_db ops) false path m.
+Proof. exists F3_ops, (ex_str "/x"), F3_any. split; [vm_compute; reflexivity | vm_compute; discriminate]. Qed.
+
+(** without any update the history model is the plain load: create-only histories are covered by
+    the theorems above *)
+Example F3_guard_off_without_update :
+  guard_F3 (hist_db [HCreate 1 [F3_rule 1; F3_rule 2] true]) (fresh_db [HCreate 1 [F3_rule 1; F3_rule 2] true]) (ex_str "/x") = false.
+Proof. vm_compute. reflexivity. Qed.
+
+(** * independent of the order in which RULE SETS were loaded *)
+
+Definition flat_sets (sets : list (nat * list rule_def)) : list (addop rval) :=
+  flat_map (fun x => ruleset_adds (fst x) (snd x)) sets.
+
+(** every rule set of the sequence is accepted *)
+Fixpoint all_accepted (d : db rval) (sets : list (nat * list rule_def)) : bool :=
+  match sets with
+  | [] => true
+  | (src, rs) :: r => snd (add_ruleset d src rs) && all_accepted (fst (add_ruleset d src rs)) r
+  end.
+
+Lemma add_all_app l1 : forall d l2,
+  add_all d (l1 ++ l2) = match add_all d l1 with Some d1 => add_all d1 l2 | None => None end.
+Proof.
+  induction l1 as [|a r IH]; intros d l2; [reflexivity|]. cbn [app add_all].
+  destruct (add_expr same_src d (ao_expr a) (ao_val a) (ao_bt a)); [apply IH | reflexivity | reflexivity].
+Qed.
+
+Lemma add_all_load l : forall d d', add_all d l = Some d' -> load_from same_src d l = d'.
+Proof.
+  induction l as [|a r IH]; intros d d'; cbn [add_all load_from fold_left]; [intro H; inversion H; reflexivity|].
+  unfold step at 2. destruct (add_expr same_src d (ao_expr a) (ao_val a) (ao_bt a)) as [d1| |]; try discriminate. apply IH.
+Qed.
+
+Lemma all_accepted_add_all sets : forall d,
+  all_accepted d sets = true -> add_all d (flat_sets sets) = Some (load_rulesets d sets).
+Proof.
+  induction sets as [|[src rs] r IH]; intros d H; [reflexivity|].
+  cbn [all_accepted flat_sets flat_map fst snd load_rulesets] in *. apply andb_true_iff in H as [H1 H2].
+  rewrite add_all_app. unfold add_ruleset in *. destruct (add_all d (ruleset_adds src rs)) as [d1|]; cbn [fst snd] in *; [|discriminate].
+  apply IH. exact H2.
+Qed.
+
+(** one Add, seen from its own expression and from the others *)
+Lemma add_ok_assoc (d d' : db rval) p ks v bt : add same_src d p ks v bt = AOk d' ->
+  (exists n', assoc p d' = Some n' /\
+      match assoc p d with
+      | Some n => vals n' = vals n ++ [v] /\ same_src (vals n) v = true
+      | None => vals n' = [v]
+      end) /\
+  (forall q, pat_eqb q p = false -> assoc q d' = assoc q d).
+Proof.
+  revert d'. induction d as [|[q0 n] r IH]; intros d'; cbn [add assoc].
+  - destruct (same_src [] v); [|discriminate]. intro H. inversion H. split.
+    + eexists. cbn [assoc]. rewrite pat_eqb_refl. split; reflexivity.
+    + intros q Hq. cbn [assoc]. rewrite Hq. reflexivity.
+  - destruct (pat_eqb p q0) eqn:E.
+    + apply pat_eqb_eq in E. subst q0. destruct (merge_keys p n ks); [|discriminate].
+      destruct (same_src (vals n) v) eqn:Ec; [|discriminate]. intro H. inversion H. split.
+      * eexists. cbn [assoc]. rewrite pat_eqb_refl. split; [reflexivity|]. split; reflexivity.
+      * intros q Hq. cbn [assoc]. rewrite Hq. reflexivity.
+    + destruct (add same_src r p ks v bt) as [r'| |] eqn:Er; try discriminate.
+      intro H. inversion H; subst d'. destruct (IH r' eq_refl) as [H1 H2]. split.
+      * cbn [assoc]. rewrite E. exact H1.
+      * intros q Hq. cbn [assoc]. destruct (pat_eqb q q0); [reflexivity | apply H2; exact Hq].
+Qed.
+
+Definition hd_src (n : node rval) : option nat := match vals n with v :: _ => Some (snd v) | [] => None end.
+
+(** every value of an expression comes from the rule set of its first value *)
+Definition srcs_ok (d : db rval) : Prop :=
+  forall p n, assoc p d = Some n -> vals n <> [] /\ forall v, In v (vals n) -> hd_src n = Some (snd v).
+
+Lemma add_srcs_ok (d d' : db rval) p ks v bt :
+  srcs_ok d -> add same_src d p ks v bt = AOk d' ->
+  srcs_ok d' /\
+  (exists n', assoc p d' = Some n' /\ hd_src n' = Some (snd v)) /\
+  (forall q n, assoc q d = Some n -> exists n', assoc q d' = Some n' /\ hd_src n' = hd_src n).
+Proof.
+  intros Hok Ha. destruct (add_ok_assoc d d' p ks v bt Ha) as [(n' & Hn' & Hv) Hother].
+  assert (Hp : vals n' <> [] /\ (forall x, In x (vals n') -> hd_src n' = Some (snd x)) /\ hd_src n' = Some (snd v)
+               /\ (forall n, assoc p d = Some n -> hd_src n' = hd_src n)).
+  { destruct (assoc p d) as [n|] eqn:Ep.
+    - destruct Hv as [Hv Hc]. destruct (Hok p n Ep) as [Hne Hall]. unfold hd_src in *. rewrite Hv.
+      destruct (vals n) as [|v0 vs] eqn:Evn; [congruence|]. cbn [app]. cbn [same_src] in Hc. apply Nat.eqb_eq in Hc.
+      split; [discriminate|]. split; [|split; [congruence | intros n0 H0; inversion H0; subst n0; rewrite Evn; reflexivity]].
+      intros x Hx. cbn [In] in Hx. destruct Hx as [<-|Hx]; [reflexivity|]. apply in_app_or in Hx as [Hx|[<-|[]]].
+      + apply (Hall x). right. exact Hx.
+      + congruence.
+    - unfold hd_src. rewrite Hv. split; [discriminate|]. split; [intros x [<-|[]]; reflexivity|]. split; [reflexivity | discriminate]. }
+  destruct Hp as (Hne & Hall & Hhd & Hpres). split; [|split].
+  - intros q n Hq. destruct (pat_eqb q p) eqn:E.
+    + apply pat_eqb_eq in E. subst q. rewrite Hn' in Hq. inversion Hq; subst n. split; assumption.
+    + rewrite (Hother q E) in Hq. apply (Hok q n Hq).
+  - exists n'. split; assumption.
+  - intros q n Hq. destruct (pat_eqb q p) eqn:E.
+    + apply pat_eqb_eq in E. subst q. exists n'. split; [exact Hn' | apply Hpres; exact Hq].
+    + exists n. split; [rewrite (Hother q E); exact Hq | reflexivity].
+Qed.
+
+(** in a sequence of Adds that all succeed, two Adds on one expression come from one rule set *)
+Lemma add_all_one_src l : forall d d',
+  srcs_ok d -> add_all d l = Some d' ->
+  srcs_ok d' /\
+  (forall q n, assoc q d = Some n -> exists n', assoc q d' = Some n' /\ hd_src n' = hd_src n) /\
+  (forall a p ks, In a l -> parse_expr (ao_expr a) = Some (p, ks) ->
+     exists n', assoc p d' = Some n' /\ hd_src n' = Some (snd (ao_val a))).
+Proof.
+  induction l as [|a r IH]; intros d d' Hok H; cbn [add_all] in H.
+  - inversion H; subst d'. split; [exact Hok|]. split; [intros q n Hq; exists n; auto | intros a p ks []].
+  - unfold add_expr in H. destruct (parse_expr (ao_expr a)) as [[p ks]|] eqn:Ep; [|discriminate].
+    destruct (add same_src d p ks (ao_val a) (ao_bt a)) as [d1| |] eqn:Ea; try discriminate.
+    destruct (add_srcs_ok d d1 p ks _ _ Hok Ea) as (Hok1 & (n1 & Hn1 & Hh1) & Hpres1).
+    destruct (IH d1 d' Hok1 H) as (Hok' & Hpres' & Hall'). split; [exact Hok'|]. split.
+    + intros q n Hq. destruct (Hpres1 q n Hq) as (n2 & Hq2 & Hh2). destruct (Hpres' q n2 Hq2) as (n3 & Hq3 & Hh3).
+      exists n3. split; [exact Hq3 | congruence].
+    + intros b q ks' [<-|Hb] Hpb.
+      * rewrite Ep in Hpb. inversion Hpb; subst q ks'. destruct (Hpres' p n1 Hn1) as (n3 & Hq3 & Hh3).
+        exists n3. split; [exact Hq3 | congruence].
+      * apply (Hall' b q ks' Hb Hpb).
+Qed.
+
+Lemma srcs_ok_nil : srcs_ok [].
+Proof. intros p n H. discriminate. Qed.
+
+Lemma targets_parse (a : addop rval) p : targets p a = true -> exists ks, parse_expr (ao_expr a) = Some (p, ks).
+Proof.
+  unfold targets. destruct (parse_expr (ao_expr a)) as [[q ks]|]; [|discriminate]. intro H.
+  apply pat_eqb_eq in H. subst q. eauto.
+Qed.
+
+Lemma ruleset_adds_src src rs a : In a (ruleset_adds src rs) -> snd (ao_val a) = src.
+Proof.
+  unfold ruleset_adds, rule_adds. intro H. apply in_flat_map in H as (r & _ & H). apply in_map_iff in H as (e & <- & _). reflexivity.
+Qed.
+
+Lemma filter_flat_map {A B} (f : B -> bool) (g : A -> list B) l :
+  filter f (flat_map g l) = flat_map (fun x => filter f (g x)) l.
+Proof. induction l as [|x r IH]; [reflexivity|]. cbn [flat_map]. rewrite filter_app, IH. reflexivity. Qed.
+
+Lemma flat_map_all_nil {A B} (h : A -> list B) l : (forall y, In y l -> h y = []) -> flat_map h l = [].
+Proof.
+  induction l as [|y r IH]; intro H; [reflexivity|]. cbn [flat_map]. rewrite (H y (or_introl eq_refl)).
+  apply IH. intros z Hz. apply H. right. exact Hz.
+Qed.
+
+Lemma flat_map_single {A B} (h : A -> list B) (x : A) l :
+  NoDup l -> In x l -> (forall y, In y l -> y <> x -> h y = []) -> flat_map h l = h x.
+Proof.
+  induction l as [|y r IH]; intros Hnd Hin Hoth; [destruct Hin|]. inversion Hnd as [|y' r' Hy Hr]; subst. cbn [flat_map].
+  destruct Hin as [->|Hin].
+  - rewrite (flat_map_all_nil h r); [apply app_nil_r|].
+    intros z Hz. apply Hoth; [right; exact Hz | intro E; subst z; contradiction].
+  - rewrite (Hoth y (or_introl eq_refl)); [|intro E; subst y; contradiction]. cbn [app].
+    apply IH; [assumption | assumption | intros z Hz; apply Hoth; right; exact Hz].
+Qed.
+
+Lemma NoDup_fst_inj {A B} (l : list (A * B)) x y :
+  NoDup (map fst l) -> In x l -> In y l -> fst x = fst y -> x = y.
+Proof.
+  induction l as [|z r IH]; intros Hnd Hx Hy E; [destruct Hx|]. cbn [map] in Hnd. inversion Hnd; subst.
+  destruct Hx as [->|Hx], Hy as [->|Hy]; [reflexivity | | | apply IH; assumption].
+  - exfalso. apply H1. rewrite E. apply in_map. exact Hy.
+  - exfalso. apply H1. rewrite <- E. apply in_map. exact Hx.
+Qed.
+
+Lemma filter_none {A} (f : A -> bool) l : (forall x, In x l -> f x = false) -> filter f l = [].
+Proof.
+  induction l as [|x r IH]; intro H; [reflexivity|]. cbn [filter]. rewrite (H x (or_introl eq_refl)).
+  apply IH. intros y Hy. apply H. right. exact Hy.
+Qed.
+
+Definition set_adds (x : nat * list rule_def) : list (addop rval) := ruleset_adds (fst x) (snd x).
+
+(** when all Adds succeed, the Adds on one expression are those of ONE rule set *)
+Lemma flat_group (sets : list (nat * list rule_def)) d' p x a :
+  NoDup (map fst sets) -> add_all [] (flat_sets sets) = Some d' ->
+  In x sets -> In a (set_adds x) -> targets p a = true ->
+  filter (targets p) (flat_sets sets) = filter (targets p) (set_adds x).
+Proof.
+  intros Hnd Hall Hx Ha Hta. unfold flat_sets. fold set_adds.
+  change (flat_map (fun x0 => ruleset_adds (fst x0) (snd x0)) sets) with (flat_map set_adds sets).
+  rewrite filter_flat_map.
+  destruct (add_all_one_src (flat_sets sets) [] d' srcs_ok_nil Hall) as (_ & _ & Hsrc).
+  apply (flat_map_single (fun y => filter (targets p) (set_adds y)) x sets).
+  - eapply NoDup_map_inv. exact Hnd.
+  - exact Hx.
+  - intros y Hy Hne. apply filter_none. intros b Hb. destruct (targets p b) eqn:Etb; [|reflexivity]. exfalso. apply Hne.
+    apply (NoDup_fst_inj sets y x Hnd Hy Hx).
+    destruct (targets_parse a p Hta) as [ksa Hpa]. destruct (targets_parse b p Etb) as [ksb Hpb].
+    assert (Hina : In a (flat_sets sets)) by (apply in_flat_map; exists x; split; assumption).
+    assert (Hinb : In b (flat_sets sets)) by (apply in_flat_map; exists y; split; assumption).
+    destruct (Hsrc a p ksa Hina Hpa) as (n1 & Hn1 & Hh1). destruct (Hsrc b p ksb Hinb Hpb) as (n2 & Hn2 & Hh2).
+    rewrite Hn1 in Hn2. inversion Hn2; subst n2. rewrite Hh1 in Hh2. inversion Hh2 as [E].
+    rewrite (ruleset_adds_src (fst x) (snd x) a Ha) in E. rewrite (ruleset_adds_src (fst y) (snd y) b Hb) in E. congruence.
+Qed.
+
+Theorem rulesets_order_independent fa (sets sets' : list (nat * list rule_def)) path (m : matcher rval) :
+  Permutation sets sets' -> NoDup (map fst sets) ->
+  all_accepted [] sets = true -> all_accepted [] sets' = true ->
+  find_in fa (load_rulesets [] sets) path m = find_in fa (load_rulesets [] sets') path m.
+Proof.
+  intros HP Hnd Ha Ha'.
+  pose proof (all_accepted_add_all sets [] Ha) as Hall. pose proof (all_accepted_add_all sets' [] Ha') as Hall'.
+  rewrite <- (add_all_load _ _ _ Hall), <- (add_all_load _ _ _ Hall').
+  apply (load_order_independent rval same_src fa (flat_sets sets) (flat_sets sets') m path).
+  assert (Hnd' : NoDup (map fst sets')) by (eapply Permutation_NoDup; [apply Permutation_map; exact HP | exact Hnd]).
+  intro p.
+  destruct (find (fun x => existsb (targets p) (set_adds x)) sets) as [x|] eqn:Ef.
+  - apply find_some in Ef as [Hx Ht]. apply existsb_exists in Ht as (a & Ha1 & Ha2).
+    rewrite (flat_group sets _ p x a Hnd Hall Hx Ha1 Ha2).
+    rewrite (flat_group sets' _ p x a Hnd' Hall' (Permutation_in _ HP Hx) Ha1 Ha2). reflexivity.
+  - assert (Hnone : forall y, In y sets -> forall b, In b (set_adds y) -> targets p b = false).
+    { intros y Hy b Hb. pose proof (find_none _ _ Ef y Hy) as Hn. cbn beta in Hn.
+      destruct (targets p b) eqn:E; [|reflexivity]. assert (existsb (targets p) (set_adds y) = true) by (apply existsb_exists; eauto). congruence. }
+    rewrite !filter_none; [reflexivity | |].
+    + intros b Hb. apply in_flat_map in Hb as (y & Hy & Hb). apply (Hnone y (Permutation_in _ (Permutation_sym HP) Hy) b Hb).
+    + intros b Hb. apply in_flat_map in Hb as (y & Hy & Hb). apply (Hnone y Hy b Hb).
+Qed.
+
+(** the same for the repository on the compressed tree *)
+Theorem tree_rulesets_order_independent (sets sets' : list (nat * list rule_def)) dflt path (m : matcher rval) :
+  Permutation sets sets' -> NoDup (map fst sets) ->
+  all_accepted [] sets = true -> all_accepted [] sets' = true ->
+  tree_find_rule (tree_load_rulesets empty_tree sets) dflt path m
+  = tree_find_rule (tree_load_rulesets empty_tree sets') dflt path m.
+Proof.
+  intros HP Hnd Ha Ha'. rewrite !tree_find_rule_is_spec. unfold spec_find_rule. f_equal.
+  rewrite <- !(repaired_find_is_spec rval _ path m) by (apply load_rulesets_wf; apply wf_db_nil).
+  apply rulesets_order_independent; assumption.
+Qed.
